@@ -39,7 +39,12 @@ def expand(item, seed):
     if item["kind"] == "grid":
         for reaction in REACTIONS:
             for st in STATUSES:
-                for tmo in (1 * S, 3 * S, S // 2):
+                for tmo in (1 * S, 3 * S, S // 2, 0):
+                    if not (isinstance(st, int)):
+                        continue
+                    yield {"steps": [{"op": "send", "len": 2}, {"op": "close", "status": st, "rlen": 1, "timeout": tmo},
+                                     {"op": "send", "len": 1}, {"op": "ping"}],
+                           "script": [], "reaction": reaction, "timeout": None, "seed": 1}
                     for pre in ([], [{"op": "recv"}], [{"op": "send", "len": 3}], [{"op": "send_close", "status": 1000, "rlen": 0}]):
                         for script in ([], [{"t": 0, "hex": R.encode_frame(1, 1, b"hi").hex()}],
                                        [{"t": 0, "hex": R.encode_frame(1, 8, b"\x03\xe8").hex()}]):
@@ -64,7 +69,7 @@ def gen(rng):
             steps.append({"op": "ping"})
         elif r < 0.75:
             steps.append({"op": "close", "status": rng.choice(STATUSES) if rng.random() < 0.5 else 1000,
-                          "rlen": rng.choice((0, 0, 5, 123)), "timeout": rng.choice((S // 2, S, 3 * S))})
+                          "rlen": rng.choice((0, 0, 5, 123)), "timeout": rng.choice((0, S // 2, S, 3 * S))})
         elif r < 0.85:
             steps.append({"op": "send_close", "status": rng.choice(STATUSES) if rng.random() < 0.5 else 1000,
                           "rlen": rng.choice((0, 3))})
@@ -90,8 +95,13 @@ def gen(rng):
         else:
             script.append({"t": t, "end": rng.choice(("eof", "reset"))})
             break
-    return {"steps": steps, "script": script, "reaction": rng.choice(REACTIONS), "timeout": rng.choice((S, 2 * S)),
-            "seed": rng.randrange(1 << 30)}
+    sc = {"steps": steps, "script": script, "reaction": rng.choice(REACTIONS), "timeout": rng.choice((S, 2 * S)),
+          "seed": rng.randrange(1 << 30)}
+    if rng.random() < 0.25:
+        # blocking socket (the library default): only calls that cannot block for ever on a silent peer
+        sc["timeout"] = None
+        sc["steps"] = [st for st in steps if st["op"] != "recv"] or [{"op": "close", "status": 1000, "rlen": 0, "timeout": S}]
+    return sc
 
 
 def _reaction_cfg(reaction, tmo_hint):
@@ -125,13 +135,17 @@ def run(sc, choices=None):
                 raise InvalidScenario("op")
             if st["op"] in ("close", "send_close") and not 0 <= int(st.get("rlen", 0)) <= 123:
                 raise InvalidScenario("rlen")
-            if st["op"] == "close" and int(st.get("timeout", S)) < 1024:
+            if st["op"] == "close" and 0 < int(st.get("timeout", S)) < 1024:
                 raise InvalidScenario("close timeout")
         reaction = sc.get("reaction", "reply")
         script = list(sc.get("script", ()))
-        T = int(sc.get("timeout", 2 * S))
-        if T < 1024:
-            raise InvalidScenario("timeout")
+        T = sc.get("timeout", 2 * S)
+        if T is not None:
+            T = int(T)
+            if T < 1024:
+                raise InvalidScenario("timeout")
+        elif any(st["op"] == "recv" for st in steps):
+            raise InvalidScenario("recv on a blocking socket may legitimately block for ever")
         oc = _reaction_cfg(reaction, 0)
         for it in script:
             if "hex" in it:
@@ -149,7 +163,8 @@ def run(sc, choices=None):
     with w:
         ws = w.ws
         c = ws.WebSocket()
-        c.settimeout(T / S)
+        if T is not None:
+            c.settimeout(T / S)
         c.connect(f"ws://{HOST}/")
         conn = w.net.conns[0]
         sock = w.net.sockets[0]
@@ -292,6 +307,10 @@ def run(sc, choices=None):
             if own_close_frames > 1:
                 res.violate("second_close_frame", ctx, f"{own_close_frames} close frames written by close()/automatic reply")
                 break
+    if not res.violations and w.k.abort_reason not in (None, "end"):
+        # the abort was swallowed by a bare 'except:' inside the library and the history ended: the hang is the verdict
+        last = sigsteps[-1][0] if sigsteps else "?"
+        res.violate("call_hangs", last, f"run aborted ({w.k.abort_reason}) during the history; steps {[x[0] for x in sigsteps]}")
     res.absorb(w)
     res.sig = repr((tuple(sigsteps), reaction))
     res.nontrivial = any(s[0] in ("close", "send_close", "shutdown") for s in sigsteps) or any(s[2] for s in sigsteps)
